@@ -39,6 +39,22 @@ def derive_layout(idx: Index, rep: Report) -> Dict[int, Tuple[str, ...]]:
     order: List[Tuple[str, ast.AST]] = [(norm(n.targets[0]), n.value) for n in own_nodes(f.node) if isinstance(n, ast.Assign) and len(n.targets) == 1]
     final: Dict[str, Tuple[str, ...]] = {}
     for nm, v in order:
+        if isinstance(v, ast.IfExp):
+            # a conditional value: both alternatives must have a derivable layout; if they differ the tensor has the wrong spins on one path
+            alts = []
+            for alt in (v.body, v.orelse):
+                if isinstance(alt, ast.Name) and alt.id in final:
+                    alts.append(final[alt.id])
+                elif isinstance(alt, ast.Call) and norm(alt.func).endswith("incore.full") and len(alt.args) == 2 and sort_of.get(norm(alt.args[1])):
+                    alts.append((sort_of[norm(alt.args[1])],) * 4)
+                else:
+                    alts.append(None)
+            if None not in alts:
+                final[nm] = alts[0] if alts[0] == alts[1] else ("conflict:" + "".join(x[0] for x in alts[0]) + "/" + "".join(x[0] for x in alts[1]),) * 4
+            continue
+        if isinstance(v, ast.Name) and v.id in final:
+            final[nm] = final[v.id]
+            continue
         if isinstance(v, ast.Call) and norm(v.func).endswith("incore.full") and len(v.args) == 2 and sort_of.get(norm(v.args[1])):
             so = sort_of[norm(v.args[1])]
             final[nm] = (so, so, so, so)
@@ -224,6 +240,7 @@ def run(idx: Index, rep: Report, tier: str):
     rep.trust("CPython ast", "pyscf ao2mo.incore.general(eri, (C1, C2, C3, C4)) returns (C1 C2|C3 C4) in chemist order", "openfermion up_index/down_index = 2p / 2p+1")
     rep.assume("integral values, frozen-core folding arithmetic, equality with full CI and orbital-rotation invariance are numerical facts and are not decided")
     check_fci_sector(idx, rep)
+    check_frozen_partition(idx, rep)
     layout = derive_layout(idx, rep)
     one = {0: (A, A), 1: (B, B)}
     n = 0
@@ -368,3 +385,61 @@ def check_fci_sector(idx: Index, rep: Report):
                 bad.append(f"nelec={ne}, spin={spin}: ({na}, {nb})")
     rep.decide(not bad, rule, init, init.node, text="(n_alpha, n_beta) = ((nelec + spin)/2, (nelec - spin)/2) for nelec 0..8 and every admissible spin",
                what="the sector handed to the CI object is the one with the requested electron number and spin projection", reason="; ".join(bad[:3]))
+
+
+# ---------------------------------------------------------------------------------------------------
+def check_frozen_partition(idx: Index, rep: Report):
+    """convert_frozen_orbitals folded on stand-in molecules (occupation lists only): restricted and unrestricted references, frozen orbitals
+    given as a count, a list, per-spin lists with *different* alpha and beta occupations and non-contiguous choices.  For each spin the four
+    returned lists must partition the orbitals into (occupied|virtual) x (frozen|active) according to that spin's own occupations."""
+    rule = "K9.frozen-partition"
+    from ..consteval import Raised, Undecidable
+    from ..rules.circuitsem import make_folder
+    FO = "tangelo/toolboxes/molecular_computation/frozen_orbitals.py"
+    f = idx.function(f"{FO}::convert_frozen_orbitals")
+
+    class _Mol:
+        _sa_model = True
+
+        def __init__(self, uhf, mo_occ):
+            self.uhf, self.mo_occ = uhf, mo_occ
+            self.n_mos = len(mo_occ[0]) if uhf else len(mo_occ)
+            self.ecp = {}
+
+    def want_for(occ, frozen):
+        occd = [i for i, o in enumerate(occ) if o > 0]
+        virt = [i for i, o in enumerate(occ) if o == 0]
+        fo_, fv_ = [i for i in frozen if i in occd], [i for i in frozen if i in virt]
+        return [i for i in occd if i not in fo_], fo_, [i for i in virt if i not in fv_], fv_
+    cases = [
+        ("RHF, first orbital frozen (count)", _Mol(False, [2, 2, 0, 0]), 1),
+        ("RHF, occupied and virtual frozen (list)", _Mol(False, [2, 2, 2, 0, 0]), [0, 4]),
+        ("ROHF, non-contiguous list", _Mol(False, [2, 1, 1, 0, 0]), [0, 3]),
+        ("RHF, nothing frozen", _Mol(False, [2, 0]), None),
+        ("UHF, count", _Mol(True, [[1, 1, 0, 0], [1, 0, 0, 0]]), 1),
+        ("UHF, per-spin lists, an orbital occupied for alpha and virtual for beta", _Mol(True, [[1, 1, 1, 0, 0], [1, 0, 0, 0, 0]]), [[0], [1]]),
+        ("UHF, per-spin lists, different frozen virtuals", _Mol(True, [[1, 1, 0, 0, 0], [1, 0, 0, 0, 0]]), [[4], [1, 3]]),
+        ("UHF, beta list empty", _Mol(True, [[1, 1, 0], [1, 0, 0]]), [[0], []]),
+    ]
+    for label, mol, frozen in cases:
+        fo = make_folder(idx, FO)
+        try:
+            got = fo.run_function(f.node, {"sec_mol": mol, "frozen_orbitals": frozen})
+        except Undecidable as e:
+            raise AnalysisError(f"convert_frozen_orbitals not foldable ({label}): {e}")
+        except Raised as e:
+            rep.violation(rule, f, f.node, text=label, what="a valid choice of frozen orbitals is accepted", reason=f"raises {e.exc_type}")
+            continue
+        fr = frozen if frozen is not None else 0
+        if mol.uhf:
+            fl = [list(range(fr)), list(range(fr))] if isinstance(fr, int) else fr
+            want = [want_for(mol.mo_occ[e], fl[e]) for e in range(2)]
+            want = tuple([want[0][k], want[1][k]] for k in range(4))
+        else:
+            fl = list(range(fr)) if isinstance(fr, int) else fr
+            want = tuple(want_for(mol.mo_occ, fl))
+        ok = isinstance(got, tuple) and len(got) == 4 and all(list(map(list, g)) == list(map(list, w)) if mol.uhf else list(g) == list(w) for g, w in zip(got, want))
+        rep.decide(ok, rule, f, f.node, text=f"{label}: active occupied / frozen occupied / active virtual / frozen virtual",
+                   what="each spin's orbitals are split by that spin's own occupations: frozen orbitals that are occupied there count as frozen occupied, the others as frozen virtual, "
+                        "everything else stays active",
+                   reason=f"returns {got}, expected {want}")
